@@ -578,13 +578,24 @@ pub fn eval_grid_map(input: &(BoxSpec, usize, bool)) -> Eval {
                 if *dim >= 2 { 0. } else { 0.5 },
                 if *dim >= 3 { 0. } else { 0.5 },
             );
-        let q0 = bd.iloc(base);
+        let q0 = match guarded(|| bd.iloc(base)) {
+            Ok(q) => q,
+            Err(pn) => {
+                e.issue("panic-in-grid-map", &case, format!("position {}: {}", fmt_vec(base), pn.msg), rp());
+                continue;
+            }
+        };
         let mut diffs = vec![];
         for ax in 0..*dim {
             let mut p = base;
             set_comp(&mut p, ax, comp(base, ax) + t * wmin);
-            let q = bd.iloc(p);
-            diffs.push(q[ax] - q0[ax]);
+            match guarded(|| bd.iloc(p)) {
+                Ok(q) => diffs.push(q[ax] - q0[ax]),
+                Err(pn) => e.issue("panic-in-grid-map", &case, format!("position {}: {}", fmt_vec(p), pn.msg), rp()),
+            }
+        }
+        if diffs.len() != *dim {
+            continue;
         }
         e.transitions += 1;
         if diffs.iter().any(|d| (d - diffs[0]).abs() > 2) {
